@@ -222,6 +222,48 @@ def run_gym_stateful(ctx):
             k = Tok("split", k, 1)
         ok_all &= keys_used == want
     chk("reseeding_reproduces_the_episode_and_follows_seed_then_one_split_per_reset[8 sequences]", ok_all, {"sequences": n})
+    # ---- histories against the documented schedule (model): every call sequence over {reset, seed+reset, step with (terminated, truncated) in
+    # {(F,F), (T,T), (F,T)}} up to length 4 after seed(S); reset(): exactly one native reset (one split) per reset(), exactly one native step on the
+    # current state per step(a), whatever came before (a terminated step, several resets in a row, a re-seed)
+    bad = None
+    for L in range(1, 5):
+        for seq in itertools.product(("reset", "reseed", "ff", "tt", "ft"), repeat=L):
+            w4, log4, fs4 = make()
+            _patched(lambda: w4.seed(Tok("S")))
+            key, state, ml = Tok("PRNGKey", Tok("S")), None, []
+            try:
+                for j, op in enumerate(("reset",) + seq):
+                    if op in ("reset", "reseed"):
+                        if op == "reseed":
+                            sd = Tok("S2", j, truth=bool(j % 2))
+                            key = Tok("PRNGKey", sd)
+                            _patched(lambda: w4.reset(seed=sd))
+                        else:
+                            _patched(lambda: w4.reset())
+                        k = Tok("split", key, 0)
+                        ml.append(("reset", k))
+                        state, key = Tok("state_of_reset", k), Tok("split", key, 1)
+                    else:
+                        fs4.term, fs4.trunc = op[0] == "t", op[1] == "t"
+                        o, r, te, tr, inf = _patched(lambda: w4.step(np.asarray(j)))
+                        ml.append(("step", state, j))
+                        relayed = r == float(Tok("reward", state)) and te is fs4.term and tr is fs4.trunc and inf == {"info": Tok("extras_of_step", state)}
+                        state = Tok("state_of_step", state)
+                        if not relayed:
+                            bad = {"sequence": ["seed", "reset"] + list(seq), "call": j, "relayed": repr((r, te, tr, inf))}
+                            break
+                    got = [(c[0], c[1]) if c[0] == "reset" else (c[0], c[1], int(c[2])) for c in log4]
+                    if not (got == ml and w4._key == key and w4._state == state):
+                        bad = {"sequence": ["seed", "reset"] + list(seq), "diverges_at_call": j, "native_calls_made": repr(got), "native_calls_documented": repr(ml),
+                               "key": repr(w4._key), "documented_key": repr(key)}
+                        break
+            except Exception as ex:
+                bad = {"sequence": ["seed", "reset"] + list(seq), "raised": repr(ex)[:200]}
+            if bad:
+                break
+        if bad:
+            break
+    chk("every_call_sequence_up_to_length_5_follows_the_documented_schedule[780 sequences]", bad is None, bad)
 
 
 def run_dm_stateful(ctx):
@@ -261,6 +303,62 @@ def run_dm_stateful(ctx):
     chk("step.stores_next_state_keeps_key", w._state == Tok("state_of_step", s0) and w._key == Tok("split", Tok("key0"), 1))
     w0 = W.JumanjiToDMEnvWrapper(env)
     chk("ctor.default_key_is_PRNGKey_0", np.array_equal(np.asarray(w0._key), np.asarray(jax.random.PRNGKey(0))))
+
+    # ---- histories: every call sequence over {reset, step whose native result is MID, step whose native result is LAST} up to length 4 after the
+    # first reset is compared, call by call, with the documented schedule: one native reset (with one split of the key) per reset(), one native
+    # step on the current state per step(a) - nothing more, nothing less, whatever happened before (a LAST step, several resets in a row ...).
+    # step_type is a real int8 value here (the adapter may legitimately look at it; its three values are enumerated), everything else is opaque.
+    import itertools
+    from jumanji.types import StepType
+    bad = None
+    nseq = 0
+    for L in range(1, 5):
+        for seq in itertools.product(("reset", "mid", "last"), repeat=L):
+            nseq += 1
+            wl = []
+
+            def freset(key):
+                wl.append(("reset", key))
+                return Tok("state_of_reset", key), TimeStep(step_type=StepType.FIRST, reward=Tok("r0"), discount=Tok("d0"), observation=Tok("obs_of_reset", key), extras=None)
+
+            def fstep(state, action):
+                wl.append(("step", state, action))
+                return Tok("state_of_step", state, action), TimeStep(step_type=fstep.next_type, reward=Tok("rew", state, action), discount=Tok("disc", state, action),
+                                                                     observation=Tok("obs_of_step", state, action), extras=None)
+            ww = _patched(lambda: W.JumanjiToDMEnvWrapper(env, key=Tok("K")))
+            ww._jitted_reset, ww._jitted_step = freset, fstep
+            key, state, ml = Tok("K"), None, []
+
+            def model(op, j):
+                nonlocal key, state
+                if op == "reset":
+                    k = Tok("split", key, 0)
+                    ml.append(("reset", k))
+                    state, key = Tok("state_of_reset", k), Tok("split", key, 1)
+                    return (dm_env.StepType.FIRST, None, None, Tok("obs_of_reset", k))
+                a = Tok("a", j)
+                ml.append(("step", state, a))
+                out = (StepType.LAST if op == "last" else StepType.MID, Tok("rew", state, a), Tok("disc", state, a), Tok("obs_of_step", state, a))
+                state = Tok("state_of_step", state, a)
+                return out
+            try:
+                for j, op in enumerate(("reset",) + seq):
+                    fstep.next_type = StepType.LAST if op == "last" else StepType.MID
+                    got = _patched(lambda: ww.reset()) if op == "reset" else _patched(lambda: ww.step(Tok("a", j)))
+                    want = model(op, j)
+                    same = (int(got.step_type) == int(want[0])) and (got.reward is want[1] if want[1] is None else got.reward == want[1]) \
+                        and (got.discount is want[2] if want[2] is None else got.discount == want[2]) and got.observation == want[3]
+                    if not (same and wl == ml and ww._key == key and ww._state == state):
+                        bad = {"sequence": ["reset"] + list(seq), "diverges_at_call": j, "native_calls_made": repr(wl), "native_calls_documented": repr(ml),
+                               "returned": repr((got.step_type, got.reward, got.discount, got.observation)), "documented": repr(want)}
+                        break
+            except Exception as ex:
+                bad = {"sequence": ["reset"] + list(seq), "raised": repr(ex)[:200]}
+            if bad:
+                break
+        if bad:
+            break
+    chk("every_call_sequence_up_to_length_5_follows_the_documented_schedule[120 sequences]", bad is None, bad)
 
 
 def run_obs_conversion(ctx, name, cfg):
